@@ -396,12 +396,27 @@ Snapshot = collections.namedtuple(
     'Snapshot', 'mem arch swap archived cells stats info loglen')
 
 
-def snapshot(wrapper, log):
+def store_items(S):
+    """contents of a persistent archive as *another connection* sees them (fresh handle, closed again): what has
+    really reached the store, as opposed to what the writing handle believes (an uncommitted sqlite transaction, a
+    buffered file)"""
+    h = open_archive(S.kind, S.path, cached=False)
+    try:
+        return dict(h.__asdict__())
+    finally:
+        conn = getattr(h, '_conn', None)
+        if conn is not None:
+            conn.close()
+
+
+def snapshot(wrapper, log, S=None):
     c = wrapper.__cache__()
     mem = dict(c.items()) if type(c).__name__ != 'cache' else dict(dict.items(c))
     memorder = tuple(mem.keys())
     if type(c).__name__ == 'cache':
         arch = archive_items(c.archive)
+        if S is not None and S.kind in PERSISTENT and not S.direct and arch is not None and type(c.archive).__name__ != 'dict_archive':
+            arch = store_items(S)
         swap = archive_items(c.__swap__)
         archived = bool(c.archived())
     else:
@@ -479,7 +494,7 @@ def apply_event(S, ev, script=(), light=False, pre=None):
     tr.binding = S.bindings[s] if s is not None else None
     tr.key = S.kmap[s] if s is not None else None
     w = S.wrapper
-    tr.pre = None if light else (pre if pre is not None else snapshot(w, S.log))
+    tr.pre = None if light else (pre if pre is not None else snapshot(w, S.log, S))
     n0 = len(S.log)
     S.chooser.reset(script)
     saved = _random.choice
@@ -535,6 +550,9 @@ def apply_event(S, ev, script=(), light=False, pre=None):
                 tr.ret = w.clear(keepstats=True)
             elif kind == 'arch':
                 tr.ret = w.archived(ev[1])
+            elif kind == 'aclear':
+                # the owner empties the attached archive directly (not through the wrapper)
+                tr.ret = w.__cache__().archive.clear()
             elif kind == 'newarch':
                 # wrapper.archive(obj): replace the cache's archive by a fresh, empty in-memory archive
                 import klepto.archives as ka
@@ -564,7 +582,7 @@ def apply_event(S, ev, script=(), light=False, pre=None):
     if light:
         return tr
     tr.logdelta = S.log[n0:]
-    tr.post = snapshot(S.wrapper, S.log)
+    tr.post = snapshot(S.wrapper, S.log, S)
     if tr.exc is not None:
         tr.obs = ('exc', type(tr.exc).__name__, str(tr.exc)[:80])
     else:
@@ -826,7 +844,7 @@ def explore_dfs(cfg, events, make_monitors, prop, depth=4):
 def event_enabled(cfg, ev):
     b = cfg['backend']
     has_archive = b not in ('none', 'plaindict') and not b.startswith('direct:') and b != 'null'
-    if ev[0] in ('dump', 'load', 'dumpk', 'loadk', 'arch', 'newarch', 'dumpks', 'loadks') and not has_archive:
+    if ev[0] in ('dump', 'load', 'dumpk', 'loadk', 'arch', 'newarch', 'dumpks', 'loadks', 'aclear') and not has_archive:
         return False
     if ev[0] == 'newarch' and b.split(':')[-1] in PERSISTENT:
         return False
